@@ -204,6 +204,49 @@ def keypair_worker(args):
     return None, traceback.format_exc()
 
 
+def keypair_history_worker(args):
+  """One CheckKeypairDenylist object over a history: the same covered seed at several sizes, each followed by a
+  neighbour modulus with the same 64 leading bits that the generator did not produce, then everything in one batch."""
+  b0, sizes, prefix = args
+  try:
+    shim.install()
+    from paranoid_crypto.lib import paranoid  # noqa
+    from paranoid_crypto.lib import rsa_single_checks as rs, keypair_generator
+    seed = bytes([b0] + [0] * 31)
+    chk = rs.CheckKeypairDenylist()
+    recs, made = [], []
+    def mk(aid, n, pq, covered):
+      at = exact_attrs(n, b'\x01\x00\x01', keypair='covered' if covered else 'neighbour')
+      return checks.Art(aid, 'rsa', art.rsa_key(n), 'keypair' if covered else 'keypairnb', n=n, crit={c: 'may' for c in gen.RSA_CHECKS}, attrs=at,
+                        **({'p': pq[0], 'q': pq[1]} if pq else {}))
+    for step, bits in enumerate(sizes):
+      p, q = (int(v) for v in keypair_generator.Generator(seed).generate_key(bits))
+      n = p * q
+      for covered, m, pq in ((True, n, (p, q)), (False, n + 2, None)):
+        a = mk('k%d%s' % (step, 'c' if covered else 'n'), m, pq, covered)
+        rec = checks.record_call('%s-kphist-%d-%d-%d%s' % (prefix, b0, step, bits, 'c' if covered else 'n'), 'rsa', [a],
+                                 lambda: chk.Check([a.proto]), ['CheckKeypairDenylist'], {a.aid: a.meta['crit']})
+        rec['scenario'] = {'seed_byte': b0, 'history': list(sizes[:step + 1]), 'bits': bits, 'covered': covered}
+        recs.append(rec)
+        made.append((covered, m, pq))
+    arts = [mk('b%d' % i, m, pq, covered) for i, (covered, m, pq) in enumerate(reversed(made))]
+    rec = checks.record_call('%s-kphist-%d-batch' % (prefix, b0), 'rsa', arts, lambda: chk.Check([a.proto for a in arts]), ['CheckKeypairDenylist'],
+                             {a.aid: a.meta['crit'] for a in arts})
+    rec['scenario'] = {'seed_byte': b0, 'history': list(sizes), 'batch': True}
+    recs.append(rec)
+    return recs, None
+  except Exception:  # pylint: disable=broad-except
+    return None, traceback.format_exc()
+
+
+def keypair_histories(quick, rng, prefix):
+  import itertools
+  if quick:
+    return [(11, (2048, 3072), prefix), (200, (4096, 2048), prefix), (rng.randrange(256), (3072, 2048, 4096), prefix)]
+  perms = list(itertools.permutations((2048, 3072, 4096)))
+  return [(b0, perms[i % 6], prefix) for i, b0 in enumerate(rng.sample(range(256), 36))]
+
+
 def ec_records(rng, quick):
   shim.install()
   from paranoid_crypto.lib import paranoid  # noqa
@@ -313,11 +356,16 @@ def run(ctx):
   mpctx = mp.get_context('fork')
   with mpctx.Pool(processes=15) as pool:
     res = list(pool.imap_unordered(rsa_worker, jobs, chunksize=1)) + list(pool.imap_unordered(keypair_worker, seeds, chunksize=1))
+    hres = list(pool.imap_unordered(keypair_history_worker, keypair_histories(ctx.quick, rng, 'C06'), chunksize=1))
   recs = []
   for rec, err in res:
     if err:
       raise tlc.MachineryError('C06 worker crashed:\n%s' % err)
     recs.append(rec)
+  for hrecs, err in hres:
+    if err:
+      raise tlc.MachineryError('C06 worker crashed:\n%s' % err)
+    recs += hrecs
   recs += ec_records(rng, ctx.quick)
   if ctx.only_sid:
     recs = [x for x in recs if x['sid'] == ctx.only_sid]
